@@ -353,29 +353,73 @@ theorem thenComparing_strictTotal {o p : OrdD α} (h1 : StrictTotal o) (h2 : Str
     · have : ¬ o.eqv b a = true := fun he => c0 (hz.mpr (h1.eqv_symm b a he))
       simp [c0, hp1, this]
 
-/-- `Reversed` flips -/
-theorem reversed_compare (o : OrdD α) (a b : α) : o.reversed.compare a b = - o.compare a b := rfl
+/-- `Reversed` after the session-6 fix: `CompareFunc.Reversed` compares the SWAPPED operands (`r.Compare(b, a)`); it does not negate
+    the result any more (in Go `-math.MinInt == math.MinInt`; the model's `Int` is unbounded, which is why the old theorem
+    `reversed.compare a b = - compare a b` was true of the model and false of the code - audit finding 8).  `LessFunc.Reversed`
+    still negates: its `Compare` is -1 / 0 / 1. -/
+theorem reversed_compare_compareFunc (r : α → α → Int) (a b : α) :
+    (OrdD.compareFunc r).reversed.compare a b = r b a := rfl
+
+theorem reversed_compare_lessFunc (r : α → α → Bool) (a b : α) :
+    (OrdD.lessFunc r).reversed.compare a b = - (OrdD.lessFunc r).compare a b := rfl
+
+/-- the sign-level statement that holds for both constructors: the reversed comparison is negative exactly when the original
+    comparison OF THE SWAPPED OPERANDS is negative -/
+theorem reversed_compare_neg (o : OrdD α) (a b : α) (h : StrictTotal o) :
+    o.reversed.compare a b < 0 ↔ o.compare b a < 0 := by
+  cases o with
+  | compareFunc r => exact Iff.rfl
+  | lessFunc r =>
+    rw [reversed_compare_lessFunc]
+    have h1 := h.compare_pos a b
+    have h2 := h.compare_neg b a
+    constructor
+    · intro hc; exact h2.mpr (h1.mp (by omega))
+    · intro hc; have := h1.mpr (h2.mp hc); omega
 
 theorem reversed_less (o : OrdD α) (a b : α) (h : StrictTotal o) : o.reversed.less a b = o.less b a := by
   have h1 := o.reversed.compare_neg_iff a b
-  have h2 := h.compare_pos a b
-  rw [reversed_compare] at h1
+  have h2 := h.compare_neg b a
+  have h3 := reversed_compare_neg o a b h
   cases hx : o.less b a with
-  | true => exact h1.mp (by have := h2.mpr hx; omega)
+  | true => exact h1.mp (h3.mpr (h2.mpr hx))
   | false =>
     cases hy : o.reversed.less a b with
     | false => rfl
     | true =>
-      have := h1.mpr hy
-      have := h2.mp (by omega)
+      have := h2.mp (h3.mp (h1.mpr hy))
       simp [hx] at this
 
-theorem reversed_eqv (o : OrdD α) (a b : α) : o.reversed.eqv a b = o.eqv a b := by
-  show (- o.compare a b == 0) = (o.compare a b == 0)
-  by_cases h : o.compare a b = 0
-  · rw [h]; rfl
-  · have h' : ¬ (- o.compare a b = 0) := by omega
-    rw [beq_eq_false_iff_ne.mpr h, beq_eq_false_iff_ne.mpr h']
+/-- `Reversed` keeps the equivalence (for a strict total order: `Eqv` is symmetric) -/
+theorem reversed_eqv (o : OrdD α) (a b : α) (h : StrictTotal o) : o.reversed.eqv a b = o.eqv a b := by
+  cases o with
+  | compareFunc r =>
+    show (r b a == 0) = (r a b == 0)
+    cases hab : (r a b == 0) with
+    | true => exact h.eqv_symm a b hab
+    | false =>
+      cases hba : (r b a == 0) with
+      | false => rfl
+      | true => have := h.eqv_symm b a hba; simp [OrdD.eqv, OrdD.compare] at this; simp [this] at hab
+  | lessFunc r =>
+    show (- (OrdD.lessFunc r).compare a b == 0) = ((OrdD.lessFunc r).compare a b == 0)
+    by_cases hz : (OrdD.lessFunc r).compare a b = 0
+    · rw [hz]; rfl
+    · have h' : ¬ (- (OrdD.lessFunc r).compare a b = 0) := by omega
+      rw [beq_eq_false_iff_ne.mpr hz, beq_eq_false_iff_ne.mpr h']
+
+/-- the positive counterpart of `reversed_compare_neg` -/
+theorem reversed_compare_pos (o : OrdD α) (a b : α) (h : StrictTotal o) :
+    0 < o.reversed.compare a b ↔ 0 < o.compare b a := by
+  cases o with
+  | compareFunc r => exact Iff.rfl
+  | lessFunc r =>
+    rw [reversed_compare_lessFunc]
+    have h1 := h.compare_neg a b
+    have h2 := h.compare_pos b a
+    constructor
+    · intro hc; exact h2.mpr (h1.mp (by omega))
+    · intro hc; have := h1.mpr (h2.mp hc); omega
 
 theorem reversed_strictTotal {o : OrdD α} (h : StrictTotal o) : StrictTotal o.reversed := by
   have hl : o.reversed.less = fun a b => o.less b a := by
@@ -383,11 +427,17 @@ theorem reversed_strictTotal {o : OrdD α} (h : StrictTotal o) : StrictTotal o.r
   apply strictTotal_of
   · rw [hl]; exact h.strictWeak.flip
   · intro a b
-    rw [hl, reversed_compare]
-    have := h.compare_neg a b
+    rw [hl]
+    show 0 < o.reversed.compare a b ↔ o.less a b = true
+    have h2 := h.compare_pos b a
+    have h3 := reversed_compare_pos o a b h
     constructor
-    · intro hc; exact this.mp (by omega)
-    · intro hc; have := this.mpr hc; omega
+    · intro hc; exact h2.mp (h3.mp hc)
+    · intro hc; exact h3.mpr (h2.mpr hc)
+
+/-- the Go-level reason for the fix, as a statement about machine integers: negation does not reverse the sign of `Int64`'s
+    least value, swapping the operands needs no negation at all -/
+theorem int64_neg_min : -(Int64.minValue) = Int64.minValue := by decide
 
 -- ============================================================================ every instance expression
 
